@@ -213,4 +213,26 @@ theorem acquire_bounded {σ : Type} (c : Cfg) (d : Dev σ) (w : W σ) (dest : Na
 /-- the generated loop factor is the one the property speaks about (`> 2 * len`) -/
 theorem loopFactor_is_two : loopFactor = 2 := by decide
 
+/-! ### non-vacuity: the hypotheses of `acquire_reaches` are met on Junos, root_shell → configuration_private
+    (de-escalate `exit`, escalate `configure private`), and on the password-protected way back -/
+
+def exCfg : Cfg := { ord := fun t a => (neighbours t a).reverse, default := junosDefault, secondary := "pw" }
+def exDev : MCfg := { password := some "pw" }
+def exInit : W MDev := { tbl := junos, belief := "root_shell", ch := { dev := { mode := "root_shell" } } }
+
+example : NbOK junos (exCfg.ord junos) := by intro a x; simp [exCfg]
+
+example : Coop junos exCfg exDev :=
+  ⟨rfl, Or.inr rfl, tableMove_none (by decide) (by decide), fun h => by cases h⟩
+
+example : ∀ v ∈ changeMap junos (exCfg.ord junos) "root_shell" "configuration_private",
+    v ≠ "root_shell" → v ≠ "configuration_private" → Unamb junos v := by decide
+
+example : (acquirePriv exCfg (modeDev exDev) exInit "configuration_private").2 = .ok ∧
+    (acquirePriv exCfg (modeDev exDev) exInit "configuration_private").1.ch.dev.log =
+      [("root_shell", ""), ("root_shell", "exit"), ("exec", ""), ("exec", "configure private"), ("configuration_private", "")] ∧
+    (acquirePriv exCfg (modeDev exDev) (acquirePriv exCfg (modeDev exDev) exInit "configuration_private").1 "root_shell").1.ch.dev.mode
+      = "root_shell" := by
+  decide +kernel
+
 end Scrapli.Priv
